@@ -1,0 +1,29 @@
+//go:build verif
+
+// Contracts for package transport_quic, checked by /verif (bfvc). Comment-only.
+package transport_quic
+
+// ---- C05: dialing peer X at an address yields a link to X ----
+// DialPeer reports success with a link only if the peer that answered (the identity authenticated
+// by the handshake, Link.remotePeerID) is the requested one; an empty peer ID asks for any peer.
+//@ func (*Transport).DialPeer
+//@   noframe
+//@   nosweep nil-deref nil-map-write guard
+//@   ensures ret2 == nil && ret0 != nil && peerID != "" ==> ret0.GetRemotePeer() == peerID
+
+// a session that is accepted yields a link
+//@ func (*Transport).HandleSession
+//@   noframe
+//@   nosweep nil-deref nil-map-write guard
+//@   ensures ret1 == nil ==> ret0 != nil
+
+// the dialer completes its promise with an error or with a link, never with neither
+//@ func (*Dialer).Execute
+//@   noframe
+//@   nosweep nil-deref nil-map-write guard
+//@   assert at call SetResult: arg0 != nil || arg1 != nil
+
+//@ func NewLink
+//@   noframe
+//@   nosweep nil-deref
+//@   ensures ret1 == nil ==> ret0 != nil
